@@ -107,11 +107,30 @@ pub fn gen_c12(rng: &mut Rng, d: &mut Dist, _idx: u64) -> Vec<String> {
     out.push(format!("OP producer_create hosts={}{}", cl.bootstrap(), opts));
     let mut uniq = 0u32;
     let nsend = 1 + rng.below(4);
-    for _ in 0..nsend {
+    // a topic that appears on the cluster after the producer was built: the producer's client may load it, the partitioner's
+    // view of the topics is the one taken at creation - records for it without a partition stay unassigned and are rejected
+    let late_at = if rng.chance(1, 4) { Some(rng.below(nsend)) } else { None };
+    let mut late = false;
+    for send_no in 0..nsend {
+        if late_at == Some(send_no) {
+            bump(d, "topic-appears-after-creation");
+            let n = 2 + rng.below(3);
+            out.push(format!("TOPIC {} {}", h("late"), n));
+            for p in 0..n {
+                out.push(format!("LEADER {} {} {}", h("late"), p, rng.pick(&cl.brokers).0));
+            }
+            out.push(if rng.chance(1, 2) { "OP p load_metadata_all".to_string() } else { format!("OP p load_metadata {}", h("late")) });
+            late = true;
+        }
         let nrec = 1 + rng.below(8);
         let mut line = String::from("OP send_all");
         for _ in 0..nrec {
             uniq += 1;
+            if late && rng.chance(1, 3) {
+                let key = if rng.chance(1, 2) { key_of_len(rng, 3) } else { vec![] };
+                line.push_str(&format!(" {} -1 {} {}", h("late"), hex(&key), hex(&uniq.to_be_bytes())));
+                continue;
+            }
             let t = if rng.chance(1, 25) { "nope".to_string() } else { rng.pick(&cl.topics).name.clone() };
             let np = cl.topics.iter().find(|x| x.name == t).map(|x| x.leaders.len()).unwrap_or(1) as i64;
             let kind = rng.below(10);
@@ -936,10 +955,29 @@ pub fn gen_c20(rng: &mut Rng, d: &mut Dist, _idx: u64) -> Vec<String> {
                 out.push(format!("OP c load_metadata {}", h(&cl.topics[ti].name)));
             }
         }
-        match rng.below(12) {
-            0 => {
-                bump(d, "hist-load-all");
-                out.push("OP c load_metadata_all".into());
+        match rng.below(13) {
+            0 | 12 => {
+                // a load of everything that fails part-way still is a reset: afterwards everything is unknown
+                if rng.chance(1, 2) {
+                    bump(d, "hist-load-all-fails");
+                    match rng.below(3) {
+                        0 => out.push("H fail_recv 0".into()),
+                        1 => out.push("H fail_send 0".into()),
+                        _ => {
+                            for b in &cl.brokers {
+                                out.push(format!("H unreachable {}", h(&format!("{}:{}", b.1, b.2))));
+                            }
+                        }
+                    }
+                    out.push("OP c load_metadata_all".into());
+                    out.push("H clear_faults".into());
+                    for b in &cl.brokers {
+                        out.push(format!("H reachable {}", h(&format!("{}:{}", b.1, b.2))));
+                    }
+                } else {
+                    bump(d, "hist-load-all");
+                    out.push("OP c load_metadata_all".into());
+                }
             }
             1 => {
                 bump(d, "hist-load-subset");
@@ -2213,7 +2251,16 @@ pub fn gen_c17(rng: &mut Rng, d: &mut Dist, _idx: u64) -> Vec<String> {
     }
     for p in 1..np {
         let mut o = 0i64;
-        small(&mut out, &mut o, p, 2 + rng.below(4));
+        small(&mut out, &mut o, p, rng.below(4));
+        // now and then a second partition is stuck behind a large entry of its own at the same time
+        if rng.chance(1, 3) {
+            bump(d, "second-partition-with-large-entry");
+            let sz = *rng.pick(&[big_val, base as usize * 2, base as usize * 9]);
+            let b2 = raw_msg(o, 0, None, Some(&vec![0xCDu8; sz]), 0);
+            out.push(format!("APPENDRAW {} {} {} {} {}", h("t"), p, o, o, hex(&b2)));
+            o += 1;
+        }
+        small(&mut out, &mut o, p, 1 + rng.below(3));
     }
     let rel = if s < base { "below-base" } else if s == base { "equal-base" } else { "above-base" };
     bump(d, &format!("entry-size-{}", rel));
@@ -2343,7 +2390,14 @@ pub fn gen_c15(rng: &mut Rng, d: &mut Dist, _idx: u64) -> Vec<String> {
     let rounds = 1 + rng.below(3);
     for _ in 0..rounds {
         // the stream script for the next call
-        match rng.below(8) {
+        match rng.below(10) {
+            8 | 9 => {
+                // the stream takes part of a frame, then a later write of the same frame times out (or fails)
+                bump(d, "stream-write-timeout-after-partial-write");
+                let cs: Vec<String> = (0..(1 + rng.below(3))).map(|_| (1 + rng.below(30)).to_string()).collect();
+                out.push(format!("H write_chunks {}", cs.join(",")));
+                out.push(format!("H {} {}", rng.pick(&["timeout_send", "timeout_send", "fail_send"]), 1 + rng.below(cs.len() as u64)));
+            }
             7 => {
                 // a read times out part-way through a reply (after the size, inside the body); the rest arrives late
                 bump(d, "stream-timeout-inside-reply");
